@@ -1,0 +1,26 @@
+//go:build verif
+
+// Verification hook for the log-writer bookkeeping (build tag `verif` only; add-only,
+// read-only: no behaviour of any build depends on this file).
+
+package caddy
+
+import (
+	"fmt"
+	"sync/atomic"
+)
+
+// VerifWritersSnapshot copies the reference counts of the `writers` usage pool
+// (logging.go): key = WriterOpener.WriterKey() of every log writer that is
+// currently open, value = number of references taken by Logging.openWriter and
+// not yet released by Logging.closeLogs. It takes the pool's read lock and
+// calls nothing else.
+func VerifWritersSnapshot() map[string]int {
+	out := map[string]int{}
+	writers.RLock()
+	for k, upv := range writers.pool {
+		out[fmt.Sprint(k)] = int(atomic.LoadInt32(&upv.refs))
+	}
+	writers.RUnlock()
+	return out
+}
